@@ -434,3 +434,128 @@ Print Assumptions C15_weak_iso_solve.
 Print Assumptions C15_weak_iso_detector.
 Print Assumptions C15_weak_iso_example.
 Print Assumptions C15_weak_iso_example_verdicts.
+
+(* ------------------------------------------------------------------------------------------------------------
+   Extension (Lemmas/IsoWeakInst.v): the law bundle of C15_weak_iso_solve instantiated for the four concrete domains,
+   contexts up to the domain equality (ctx_equiv), and the run_all composition: the validation-agreement hypothesis
+   of C15_weak_iso_detector is discharged for the nine detectors. *)
+From Tealer Require Import LeafPrelude Leaves LeafLemmas TotalDomains IsoLemmas IsoWeakInst.
+
+(* the four instances of the bundle (representation invariant P, order leq) *)
+Theorem C15_weak_laws_int : forall U : list Z,
+  WLaws zset_eqb U nil zunion zinter (@PTrue (list Z)) (@incl Z).
+Proof. exact zset_wlaws. Qed.
+Theorem C15_weak_laws_kinds : forall U : list string,
+  WLaws lset_eqb U nil lunion linter (@PTrue (list string)) (@incl string).
+Proof. exact lset_wlaws. Qed.
+Theorem C15_weak_laws_fee :
+  WLaws feeval_eqb fee_universal_set fee_null_set fee_union fee_intersection fee_P fee_rleq.
+Proof. exact fee_wlaws. Qed.
+Theorem C15_weak_laws_addr :
+  WLaws sset_seteqb addr_universal_set addr_null_set addr_union addr_intersection addr_wf addr_leq.
+Proof. exact addr_wlaws. Qed.
+
+(* one analysis key of each of the four analyses: two terminating runs on weakly isomorphic functions give results
+   with the same keys and equal sets / the same fee bound *)
+Theorem C15_weak_iso_solve_int :
+  forall (size : bool) (intcs : option (list N)) (U : list Z) (r g : nat -> nat) (f f' : func)
+         (bc bc' : list (nat * list Z)) (fu fu' : nat) (lo lo' : list (nat * list Z)),
+  fiso_w r g f f' -> graph_wf f' = true ->
+  peq (list Z) zset_eqb (ren_st r bc) bc' ->
+  solve (list Z) zset_eqb U nil zunion zinter (int_single size intcs) f fu bc = Done lo ->
+  solve (list Z) zset_eqb U nil zunion zinter (int_single size intcs) f' fu' bc' = Done lo' ->
+  peq (list Z) zset_eqb (ren_st r lo) lo'.
+Proof. exact wiso_solve_int. Qed.
+
+Theorem C15_weak_iso_solve_kinds :
+  forall (intcs : option (list N)) (fam : keyfam) (r g : nat -> nat) (f f' : func)
+         (bc bc' : list (nat * list string)) (fu fu' : nat) (lo lo' : list (nat * list string)),
+  fiso_w r g f f' -> graph_wf f' = true ->
+  peq (list string) lset_eqb (ren_st r bc) bc' ->
+  solve (list string) lset_eqb ALL_TRANSACTION_TYPES nil lunion linter (type_single intcs fam) f fu bc = Done lo ->
+  solve (list string) lset_eqb ALL_TRANSACTION_TYPES nil lunion linter (type_single intcs fam) f' fu' bc' = Done lo' ->
+  peq (list string) lset_eqb (ren_st r lo) lo'.
+Proof. exact wiso_solve_type. Qed.
+
+Theorem C15_weak_iso_solve_fee :
+  forall (intcs : option (list N)) (fam : keyfam) (r g : nat -> nat) (f f' : func)
+         (bc bc' : list (nat * feeval)) (fu fu' : nat) (lo lo' : list (nat * feeval)),
+  fiso_w r g f f' -> graph_wf f' = true ->
+  okst feeval fee_P bc -> okst feeval fee_P bc' ->
+  peq feeval feeval_eqb (ren_st r bc) bc' ->
+  solve feeval feeval_eqb fee_universal_set fee_null_set fee_union fee_intersection (fee_single intcs fam) f fu bc = Done lo ->
+  solve feeval feeval_eqb fee_universal_set fee_null_set fee_union fee_intersection (fee_single intcs fam) f' fu' bc' = Done lo' ->
+  peq feeval feeval_eqb (ren_st r lo) lo' /\ okst feeval fee_P lo'.
+Proof. exact wiso_solve_fee. Qed.
+
+Theorem C15_weak_iso_solve_addr :
+  forall (intcs : option (list N)) (fam : keyfam) (fld : string) (r g : nat -> nat) (f f' : func)
+         (bc bc' : list (nat * sset)) (fu fu' : nat) (lo lo' : list (nat * sset)),
+  fiso_w r g f f' -> graph_wf f' = true ->
+  okst sset addr_wf bc -> okst sset addr_wf bc' ->
+  peq sset sset_seteqb (ren_st r bc) bc' ->
+  solve sset sset_seteqb addr_universal_set addr_null_set addr_union addr_intersection (addr_single intcs fam fld) f fu bc = Done lo ->
+  solve sset sset_seteqb addr_universal_set addr_null_set addr_union addr_intersection (addr_single intcs fam fld) f' fu' bc' = Done lo' ->
+  peq sset sset_seteqb (ren_st r lo) lo' /\ okst sset addr_wf lo'.
+Proof. exact wiso_solve_addr. Qed.
+
+(* the nine detector predicates read the context only through the domains' values *)
+Theorem C15_detector_predicates_ctx_inv :
+  forall (name : string) (checks : bctx -> bool), In (name, checks) detectors -> ctx_inv checks.
+Proof. exact detectors_ctx_inv. Qed.
+
+Theorem C15_validated_in_block_ctx_equiv :
+  forall (a b : fn_result) (checks : bctx -> bool) (ai : option N) (n : nat),
+  res_equiv a b -> ctx_inv checks -> validated_in_block a checks ai n = validated_in_block b checks ai n.
+Proof. exact validated_in_block_equiv. Qed.
+
+(* the whole analysis: two terminating runs of run_all on weakly isomorphic functions *)
+Theorem C15_weak_iso_run_all :
+  forall (r g : nat -> nat) (f f' : func), fiso_w r g f f' -> graph_wf f' = true ->
+  forall (fu fu' : nat) (res res' : fn_result),
+  run_all f fu = Done res -> run_all f' fu' = Done res' -> res_equiv (ren_result r res) res'.
+Proof. exact wiso_run_all. Qed.
+
+Theorem C15_weak_iso_ctx_equiv :
+  forall (r g : nat -> nat) (f f' : func), fiso_w r g f f' -> graph_wf f' = true ->
+  forall (fu fu' : nat) (res res' : fn_result) (n : nat) (fam : keyfam),
+  run_all f fu = Done res -> run_all f' fu' = Done res' ->
+  ctx_equiv (ctx_of (ren_result r res) n fam) (ctx_of res' n fam).
+Proof. exact wiso_ctx_equiv. Qed.
+
+Theorem C15_weak_iso_validated :
+  forall (r g : nat -> nat) (f f' : func), fiso_w r g f f' -> graph_wf f' = true ->
+  forall (fu fu' : nat) (res res' : fn_result) (checks : bctx -> bool) (ai : option N) (n : nat),
+  run_all f fu = Done res -> run_all f' fu' = Done res' -> ctx_inv checks ->
+  validated_in_block res' checks ai n = validated_in_block (ren_result r res) checks ai n.
+Proof. exact wiso_validated. Qed.
+
+(* all nine detectors: exactly the renamed paths, same order, every search fuel, exceptions included; no hypothesis on
+   the validation verdicts any more (both analyses terminate, f' passes the model's graph check) *)
+Theorem C15_weak_iso_detectors :
+  forall (r g : nat -> nat) (f f' : func), fiso_w r g f f' -> graph_wf f' = true ->
+  forall (fu fu' : nat) (res res' : fn_result) (fuel : nat) (name : string) (checks : bctx -> bool),
+  run_all f fu = Done res -> run_all f' fu' = Done res' -> In (name, checks) detectors ->
+  run_detector f' res' fuel name checks = omap (ren_paths r) (run_detector f res fuel name checks).
+Proof. exact wiso_detectors. Qed.
+
+Theorem C15_weak_iso_detectors_example :
+  forall (fuel : nat) (name : string) (checks : bctx -> bool), In (name, checks) detectors ->
+  run_detector m3_f' m3_res' fuel name checks = omap (ren_paths m3_r) (run_detector m3_f m3_res fuel name checks).
+Proof. exact m3w_detectors_all. Qed.
+
+Print Assumptions C15_weak_laws_int.
+Print Assumptions C15_weak_laws_kinds.
+Print Assumptions C15_weak_laws_fee.
+Print Assumptions C15_weak_laws_addr.
+Print Assumptions C15_weak_iso_solve_int.
+Print Assumptions C15_weak_iso_solve_kinds.
+Print Assumptions C15_weak_iso_solve_fee.
+Print Assumptions C15_weak_iso_solve_addr.
+Print Assumptions C15_detector_predicates_ctx_inv.
+Print Assumptions C15_validated_in_block_ctx_equiv.
+Print Assumptions C15_weak_iso_run_all.
+Print Assumptions C15_weak_iso_ctx_equiv.
+Print Assumptions C15_weak_iso_validated.
+Print Assumptions C15_weak_iso_detectors.
+Print Assumptions C15_weak_iso_detectors_example.
